@@ -1087,8 +1087,13 @@ func (c *compiler) evalStatement(node ast.Statement) (interface{}, error) {
 	case *ast.ExpressionStatement:
 		s, err := c.evalExpression(t.Expression)
 		switch s.(type) {
-		case exitBlockStatment, ast.Printable, template.HTML:
+		case exitBlockStatment, ast.Printable:
 			return s, err
+		case template.HTML:
+			// only literal text is output by a code tag, not a value that happens to be HTML
+			if _, ok := t.Expression.(*ast.HTMLLiteral); ok {
+				return s, err
+			}
 		}
 
 		return nil, err
